@@ -303,7 +303,7 @@ func CompareExpect(resp *dns.Msg, q Query, e *Expect) (string, string) {
 				return "additional-count", fmt.Sprintf("target %s family %d: %d records", t, fam, len(got))
 			}
 			if len(got) == 0 {
-				if len(cands) > 0 && !e.GlueLenient[t] {
+				if len(cands) > 0 && !e.GlueLenient[t] && !e.GlueLenientFam[t][fam] {
 					return "additional-missing", fmt.Sprintf("target %s family %d: glue declared but absent", t, fam)
 				}
 				continue
